@@ -6,6 +6,8 @@ package filecachepb
 //verif:stub os.WriteFile verifDirectWriteFile
 //verif:stub os.OpenFile verifDirectOpenFile
 //verif:stub os.Create verifDirectCreate
+//verif:stub os.ReadFile verifGhostReadFile
+//verif:stub google.golang.org/protobuf/proto.Unmarshal verifUnmarshal
 
 import (
 	"io/fs"
@@ -17,6 +19,8 @@ import (
 
 // ghost file of the symbolic build
 type verifStoreGhost struct {
+	// the message last encoded, and the one whose encoding is in the ghost file
+	encoded, stored *FileCache
 	exists  bool
 	atomic  int
 	inPlace int
@@ -36,12 +40,39 @@ func (*verifStoreEnv) replacedAtomically() bool {
 	return verifSG.inPlace == 0 && verifSG.atomic == 1
 }
 
-func verifMarshal(m proto.Message) ([]byte, error) { return []byte{8, 1}, nil }
+func verifMarshal(m proto.Message) ([]byte, error) {
+	if fc, ok := m.(*FileCache); ok {
+		verifSG.encoded = fc
+	}
+	return []byte{8, 1}, nil
+}
+
+// verifGhostReadFile returns the content of the ghost cache file.
+func verifGhostReadFile(name string) ([]byte, error) {
+	if name != "/ghost/profilecache.pb" || !verifSG.exists {
+		return nil, os.ErrNotExist
+	}
+	return []byte{8, 1}, nil
+}
+
+// verifUnmarshal decodes the ghost file: the fields of the message stored last.
+func verifUnmarshal(b []byte, m proto.Message) error {
+	dst, ok := m.(*FileCache)
+	if !ok || verifSG.stored == nil {
+		return os.ErrInvalid
+	}
+	dst.Version = verifSG.stored.Version
+	dst.SyncTime = verifSG.stored.SyncTime
+	dst.Profiles = verifSG.stored.Profiles
+	dst.Devices = verifSG.stored.Devices
+	return nil
+}
 
 func verifAtomicWriteFile(filename string, data []byte, perm os.FileMode, opts ...renameio.Option) error {
 	if filename == "/ghost/profilecache.pb" {
 		verifSG.atomic++
 		verifSG.exists = true
+		verifSG.stored = verifSG.encoded
 	}
 	return nil
 }
